@@ -71,3 +71,9 @@ Proof. vm_compute. split; reflexivity. Qed.
 Example prefix_directly_behind_a_parenthesis_is_seen :
   select_auto [40; 45; 97; 32; 111; 114; 32; 98; 41]%N = DMixed.    (* "(-a or b)" *)
 Proof. vm_compute. reflexivity. Qed.
+
+Example operator_words_in_upper_case_are_tags :
+  select_auto [97; 44; 102; 111; 111; 32; 79; 82]%N = DV1          (* "a,foo OR" *)
+  /\ select_auto [97; 32; 65; 110; 100; 32; 98]%N = DV1            (* "a And b" *)
+  /\ select_auto [97; 32; 97; 110; 100; 32; 98]%N = DV2.           (* "a and b" *)
+Proof. vm_compute. repeat split; reflexivity. Qed.
